@@ -525,7 +525,7 @@ fn main() {
     let shapes: &[(u8, u32, u16, usize, bool, bool, Option<u32>)] = if thorough {
         &[(1, 16, 16, 40, true, false, None), (2, 16, 16, 37, false, false, Some(20)), (2, 8, 16, 48, true, true, Some(64)), (3, 24, 32, 70, false, true, None), (1, 12, 256, 600, true, true, Some(300))]
     } else {
-        &[(1, 16, 16, 40, true, false, None), (2, 8, 16, 37, false, true, Some(64))]
+        &[(1, 16, 16, 40, true, false, None), (2, 8, 16, 37, false, true, Some(200))]
     };
     for (i, (ch, bps, bs, n, declare, seektable, padding)) in shapes.iter().enumerate() {
         let pcm = gen_pcm(&mut rng, PCM_KINDS[i % PCM_KINDS.len()], *ch as usize, *bps, *n);
@@ -599,7 +599,7 @@ fn main() {
             edits.push(("inplace", "comment:5".to_string()));
             edits.push(("inplace", "grow:3".to_string()));
         }
-        edits.push(("rebuild", "grow:100".to_string()));
+        edits.push(("rebuild", "grow:1000".to_string()));
         if thorough {
             edits.push(("rebuild", "comment:9000".to_string())); // metadata larger than the BufWriter
         }
